@@ -2,8 +2,8 @@
 C19  Unchecked internals never go out of bounds on any valid position.
 Proved here: every table index computed from a square, cell, rights value or occupancy is in range, and the
 unchecked square arithmetic of the move validator / make-move stays on the board. The clause "no valid position
-has more than 256 semilegal moves" is stated (`SemilegalCountBound`) but NOT proved — see DESIGN §9; it is
-supported by search only.
+has more than 256 semilegal moves" is stated here (`SemilegalCountBound`) and PROVED in Props/C19_bound.lean
+(`semilegalCountBound`, `semilegal_count_le_256`) by kernel-checked LP-duality certificates (Lemmas/Bound).
 -/
 import OwlModel.Lemmas.Capture
 
